@@ -208,7 +208,64 @@ func (r *SortReg) zero(t types.Type, lits *Lits) string {
 func (r *SortReg) structGet(t types.Type, i int, x string) string {
 	r.sortOf(t)
 	st := t.Underlying().(*types.Struct)
+	// accessor applied to a constructor term: project syntactically (keeps VCs small)
+	if mk := "(" + q("mk:"+r.structName(t)) + " "; strings.HasPrefix(x, mk) {
+		if args := splitSexprArgs(x[len(mk) : len(x)-1]); len(args) == maxIntS(st.NumFields(), 1) && i < len(args) {
+			return args[i]
+		}
+	}
 	return fmt.Sprintf("(%s %s)", q(r.structName(t)+"."+fieldName(st, i)), x)
+}
+
+func maxIntS(a, b int) int {
+	if a > b {
+		return a
+	}
+	return b
+}
+
+// splitSexprArgs splits a space-separated list of s-expressions at top level (|quoted| symbols may contain spaces).
+func splitSexprArgs(s string) []string {
+	var out []string
+	depth := 0
+	start := -1
+	inBar := false
+	for i := 0; i < len(s); i++ {
+		c := s[i]
+		if inBar {
+			if c == '|' {
+				inBar = false
+			}
+			continue
+		}
+		switch c {
+		case '|':
+			inBar = true
+			if start < 0 {
+				start = i
+			}
+		case '(':
+			if start < 0 {
+				start = i
+			}
+			depth++
+		case ')':
+			depth--
+		case ' ':
+			if depth == 0 && start >= 0 {
+				out = append(out, s[start:i])
+				start = -1
+			}
+		default:
+			if start < 0 {
+				start = i
+			}
+		}
+	}
+	if start >= 0 {
+		out = append(out, s[start:])
+	}
+	return out
 }
 
 // structSet: functional update of field i
